@@ -99,15 +99,16 @@ func isLocalIP(ip net.IP) (ok bool) {
 }
 
 // usableAddr converts an RR address to its canonical netip value and applies
-// the shared NS-address filters (local interface addresses, loopback). The
-// bool is false when the address is malformed or filtered.
+// the shared NS-address filters (local interface addresses, loopback, and the
+// unspecified address, which the kernel delivers to the local host just like
+// loopback). The bool is false when the address is malformed or filtered.
 func usableAddr(ip net.IP) (netip.Addr, bool) {
 	addr, ok := netip.AddrFromSlice(ip)
 	if !ok {
 		return netip.Addr{}, false
 	}
 	addr = addr.Unmap()
-	if addr.IsLoopback() || isLocalIP(ip) {
+	if addr.IsLoopback() || addr.IsUnspecified() || isLocalIP(ip) {
 		return netip.Addr{}, false
 	}
 	return addr, true
